@@ -130,7 +130,7 @@ def run(chk):
             m = {"model": "linear", "min depth": float(round(fmin * rng.uniform(0.0, 0.8))), "max depth": float(round(fmax * rng.uniform(0.6, 1.2))),
                  "top temperature": rng.choice([300.0, -1]), "bottom temperature": rng.choice([1500.0, -1])}
         else:
-            m = g.temp_model(kind, fmin, fmax, centre=(0.0, 0.0), spherical=False)
+            m = g.temp_model(kind, fmin, fmax, centre=(0.0, 0.0), spherical=False, variable_spreading=0)    # the closed form below takes one velocity
         m.pop("operation", None)
         if m["model"] in ("half space model", "plate model", "plate model constant age"):
             m.pop("min depth", None)
@@ -158,6 +158,64 @@ def run(chk):
             ps = [[1, 0, 0], [2, 0, 0], [2, 1, 0], [2, 2, 0], [2, 3, 0], [5, 0, 0], [3, gm["compositions"][0], 2]]
             i = cs.p3(slot, pos, d, ps)
             plan.append((i, w, wv, f, m, cm, vm, gm, ip, d))
+    # the "local top" clause with a feature whose own min depth is given at points: at a listed point the models measure
+    # depth from the listed value, not from the smallest value of the surface
+    local_plan = []
+    for wi in range(9 if quick else 90):
+        kind = kinds[wi % 3]
+        w = {"version": "1.1"}
+        g.globals(w)
+        w.pop("force surface temperature", None)
+        wv = {"Tp": w.get("potential mantle temperature", 1600), "alpha": w.get("thermal expansion coefficient", 3.5e-5),
+              "cp": w.get("specific heat", 1250), "kappa": w.get("thermal diffusivity", 0.804e-6),
+              "g": w.get("gravity model", {}).get("magnitude", 9.81)}
+        poly = g.polygon(0.0, 0.0, 3e5)
+        pt = g.interior_point(poly)
+        corner_min = rng.choice([0.0, 1e4])
+        node_min = float(round(rng.uniform(2e4, 6e4)))
+        fmax = float(round(rng.uniform(1.5e5, 2.5e5)))
+        f = {"model": kind, "name": "a", "coordinates": poly, "max depth": fmax, "min depth": [[corner_min], [node_min, [pt]]]}
+        if kind == "continental plate" and wi % 2 == 1:
+            m = {"model": "chapman", "top temperature": rng.choice([300.0, -1]), "top heat flux": g.num(0.03, 0.09, 4)}
+        else:
+            m = {"model": "linear", "max depth": float(round(fmax * rng.uniform(0.6, 1.2))), "top temperature": rng.choice([300.0, -1]),
+                 "bottom temperature": rng.choice([1500.0, -1])}
+        f["temperature models"] = [m]
+        w["features"] = [f]
+        slot = cs.add_world(w)
+        fs = dict(f)
+        fs["min depth"] = node_min
+        bot = min(fmax, m.get("max depth", fmax))
+        for t in (0.02, 0.05, 0.3, 0.6, 0.9):      # not 0: the interpolated top at the listed point carries rounding
+            d = float(round(node_min + t * (bot - node_min)))
+            i = cs.p3(slot, (float(pt[0]), float(pt[1]), TOP - d), d, [[1, 0, 0]])
+            local_plan.append((i, wv, fs, m, pt, d))
+    # ridge models in spherical worlds: plates across the +-180 meridian, oblique ridges, one spreading velocity per ridge
+    # coordinate (the nearest ridge point is reached through the longitude alias); decided by the model, bit for bit
+    from wbgen import cart_point
+    for wi in range(8 if quick else 100):
+        w = {"version": "1.1", "coordinate system": {"model": "spherical", "depth method": "begin segment"}}
+        g.globals(w)
+        w.pop("force surface temperature", None)
+        base = rng.choice([180.0, -180.0, 0.0])
+        lon_r = base + rng.uniform(-6, 6)
+        ridge = [[round(lon_r + rng.uniform(-3, 3), 2), -25.0], [round(lon_r + rng.uniform(-3, 3), 2), 25.0]]
+        if rng.random() < 0.5:
+            ridge.insert(1, [round(lon_r + rng.uniform(-3, 3), 2), round(rng.uniform(-8, 8), 1)])
+        if rng.random() < 0.5:
+            ridge = ridge[::-1]
+        fmax = float(round(rng.uniform(1.0e5, 2.0e5)))
+        m = {"model": rng.choice(["half space model", "plate model"]), "max depth": fmax, "top temperature": g.num(250, 400, 1),
+             "bottom temperature": rng.choice([g.num(1400, 1900, 1), -1]), "ridge coordinates": [ridge],
+             "spreading velocity": [[0.0, [[g.num(0.01, 0.12, 4) for _p in ridge]]]]}
+        f = {"model": "oceanic plate", "name": "o", "coordinates": [[base - 30, -35], [base + 30, -35], [base + 30, 35], [base - 30, 35]],
+             "max depth": fmax, "temperature models": [m]}
+        w["features"] = [f]
+        slot = cs.add_world(w)
+        for qi in range(16):
+            lon, lat = base + rng.uniform(-28, 28), rng.uniform(-33, 33)
+            d = float(round(rng.uniform(0.0, fmax)))
+            cs.p3(slot, cart_point(True, lon, lat, d, 6371000.0, TOP), d, [[1, 0, 0], [4, 0, 0]])
     # plume temperature models: uniform and Gaussian (centerline temperature and sigma interpolated between the depth nodes)
     import c04
     plume_plan = []
@@ -221,6 +279,20 @@ def run(chk):
             dsc["expected"], dsc["got"] = exp, v[0]
             viol.append(("plume Gaussian temperature returns %.10g, the documented closed form (centerline temperature and sigma "
                          "interpolated between the depth nodes) gives %.10g" % (v[0], exp), dsc))
+    for (i, wv, fs, m, pt, d) in local_plan:
+        v = common.parse_vec(impl[i])
+        if v is None:
+            viol.append(("query inside the feature throws", cs.describe(i)))
+            continue
+        exp = spec_temperature(wv, fs, m, pt[0], pt[1], d)
+        if exp is None:
+            continue
+        chk.nontriv((i,))
+        if abs(v[0] - exp) > 1e-9 * max(1.0, abs(exp)):
+            dsc = cs.describe(i)
+            dsc["expected"], dsc["got"] = exp, v[0]
+            viol.append(("%s temperature model (%s, feature min depth given at points) returns %.10g at a listed point; measured from the "
+                         "local top of the feature the documented closed form gives %.10g" % (m["model"], fs["model"], v[0], exp), dsc))
     per_model = {}
     for (i, w, wv, f, m, cm, vm, gm, ip, d) in plan:
         v = common.parse_vec(impl[i])
